@@ -301,6 +301,8 @@ def match_known(known, prop, viol):
     for k in known:
         if k.get('property') != prop or not str(k.get('status', '')).startswith('open'):
             continue
+        if k.get('kind_regex') and not re.search(k['kind_regex'], viol['kind']):
+            continue
         if k.get('kind') and k['kind'] != viol['kind']:
             continue
         if k.get('message_regex') and not re.search(k['message_regex'], viol['msg']):
@@ -456,6 +458,14 @@ def _check(prop, tier, spec, base_seed, build, t0, runs_override):
         k = match_known(known, prop, v)
         if k is not None:
             known_hits.append((k, v, len(lst)))
+            if os.environ.get('VERIF_WITNESS') and 'tapes' in r and not any(h[0] is k for h in known_hits[:-1]):
+                # Maintenance mode: refresh the recorded witness history of an open finding.
+                path, ok, why = shrink_and_confirm(build, prop, s, r, v, budget_s=spec.get('shrink_s', 90))
+                if ok:
+                    dst = os.path.join(VERIF, 'findings', f'witness-{k["id"]}.json')
+                    shutil.copy(path, dst)
+                    os.remove(path)
+                    print(f'witness for {k["id"]} refreshed: {dst}')
             continue
         if 'tapes' not in r:
             problems.append(f'violation {prop}/{kind} at seed {r["seed"]} carries no tapes')
@@ -468,6 +478,29 @@ def _check(prop, tier, spec, base_seed, build, t0, runs_override):
         reported.append((kind, path, v, len(lst)))
         status = 1
 
+    # Every open finding of this property carries a recorded witness history; replay it, so the
+    # finding is reported on every run and not only when the random search happens to hit it.
+    for k in known:
+        if k.get('property') != prop or not str(k.get('status', '')).startswith('open') or not k.get('witness'):
+            continue
+        if any(h[0] is k for h in known_hits):
+            continue
+        wpath = os.path.join(VERIF, k['witness'])
+        try:
+            rf = json.load(open(wpath))
+            rc, out = single(build, {'SIM_SCENARIO': rf['scenario'], 'SIM_REPLAY': wpath, 'SIM_PROP': prop})
+            hit = None
+            for r in out:
+                for v in r.get('violations') or []:
+                    if v['prop'] in (prop, '*') and match_known([k], prop, v) is k:
+                        hit = v
+            if hit:
+                known_hits.append((k, hit, 'recorded witness; 0'))
+            else:
+                print(f'NOTE: the recorded witness of known finding {k["id"]} ({k["witness"]}) does not reproduce on this tree')
+        except Exception as e:  # a stale witness is a maintenance matter, never a verdict
+            print(f'NOTE: could not replay the witness of known finding {k["id"]}: {e}')
+
     crashes, CRASHES[:] = list(CRASHES), []
     for c in crashes[:3]:
         path = confirm_crash(build, prop, c)
@@ -477,8 +510,11 @@ def _check(prop, tier, spec, base_seed, build, t0, runs_override):
             status = 1
         else:
             problems.append(f'worker for {c["scenario"]} died with status {c["rc"]} inside seed {c["seed"]} (not attributable to the library, or not repeatable):\n{c["tail"][-1500:]}')
+    seen_known = {}
     for k, v, n in known_hits:
-        print(f'KNOWN-FINDING: property={prop} {k.get("id", "")} {k["description"]} (kind={v["kind"]}, {n} runs this time)')
+        seen_known.setdefault(k.get('id', k.get('kind')), (k, []))[1].append(f'{v["kind"]}: {n} runs')
+    for kid, (k, kinds) in seen_known.items():
+        print(f'KNOWN-FINDING: property={prop} {kid} {k["description"]} (this time: {"; ".join(kinds)})')
     for kind, path, v, n in reported:
         print(f'{prop}/{kind} in {n} runs, e.g.: {v["msg"]}')
         print(f'VIOLATION property={prop} replay={path}')
@@ -502,7 +538,7 @@ def _check(prop, tier, spec, base_seed, build, t0, runs_override):
         'build_s': round(build.build_s, 1), 'instrumenter': build.instr_note,
         'components': COMPONENTS,
         'repo_tree': repo_tree_hash(),
-        'known_findings_hit': [k.get('id') for k, _, _ in known_hits],
+        'known_findings_hit': sorted({k.get('id') for k, _, _ in known_hits}),
         'violations_reported': [{'kind': k, 'replay': p, 'runs': n} for k, p, _, n in reported],
         'exhaustive': bool(spec.get('exhaustive')) and not problems,
         'enum_histories': len([1 for _, r in runs if r.get('enum') and r.get('enum_pos', 0) == -1]),
@@ -516,7 +552,7 @@ def _check(prop, tier, spec, base_seed, build, t0, runs_override):
         cov['harness_trouble'] = problems + [e['error'] for e in errors] + [f'panic seed {r["seed"]}: {r["panic"][:300]}' for _, r in panics]
     write_evidence(prop, tier, base_seed, spec.get('level', 'exploration'), cov, wall, len(reported), spec.get('assumptions', []))
     print(f'{prop} [{tier}] runs={len(runs)} nontrivial-distinct={len(nontriv_digests)} schedules={len(digests)} steps={steps} '
-          f'faults={sum(faults.values())} wall={wall:.1f}s ({int(rate)} runs/h) violations={len(reported)} known={len(known_hits)}')
+          f'faults={sum(faults.values())} wall={wall:.1f}s ({int(rate)} runs/h) violations={len(reported)} known={len(seen_known)}')
     if status == 1:
         return 1
     if panics:
@@ -573,16 +609,22 @@ def selftest_determinism(scenario, nseeds, nprocs, repeats):
             # every process runs the SAME seeds; compare digests across processes
             ws = []
             for i in range(procs):
-                w = Worker(build, f'det-{rep}-{i}', {'SIM_SCENARIO': scenario, 'SIM_SEEDS': f'{base}:{nseeds}'})
+                # Every process runs the SAME seeds; two in three start part-way into the
+                # range, so a result that depends on what ran earlier in the process shows up too.
+                start = base + (nseeds // 2 if i % 3 == 2 else nseeds // 5 if i % 3 == 1 else 0)
+                w = Worker(build, f'det-{rep}-{i}', {'SIM_SCENARIO': scenario, 'SIM_SEEDS': f'{start}:{base + nseeds - start}'})
+                w.det_start = start
                 w.start({})
                 ws.append(w)
             for w in ws:
                 w.proc.wait()
                 # A dirty run ends the process; restart for the rest.
+                start = w.det_start
+                want = base + nseeds - start
                 res = w.read_new()
                 got = {r['seed']: r for r in res if 'seed' in r}
-                nxt = base + len(got)
-                while len(got) < nseeds and res and (res[-1].get('dirty') or res[-1].get('panic')):
+                nxt = start + len(got)
+                while len(got) < want and res and (res[-1].get('dirty') or res[-1].get('panic')):
                     w.start({'SIM_SEEDS': f'{nxt}:{base + nseeds - nxt}'})
                     w.proc.wait()
                     res = w.read_new()
@@ -591,7 +633,7 @@ def selftest_determinism(scenario, nseeds, nprocs, repeats):
                     for r in res:
                         if 'seed' in r:
                             got[r['seed']] = r
-                    nxt = base + len(got)
+                    nxt = start + len(got)
                 for seed, r in got.items():
                     total += 1
                     d = (r['digest'], r['sched_digest'], json.dumps(r.get('violations'), sort_keys=True))
